@@ -60,7 +60,7 @@ TABLE = {
     ),
     "C11": (
         "generated automata x exhaustive short strings; oracle = alpha E* M_x1 E* ... beta as dense matrices over exact model semirings; acyclic cases also brute-force path enumeration",
-        "String weights, epsilon removal (read as data) and total weight against matrix path sums incl. epsilon cycles; symbols as strings, ints incl. 0, tuples; signed weights; both construction APIs (add_* / set_*); up to 6 states and strings up to length 5; derived machines extended and then queried. Exploration.",
+        "String weights, epsilon removal (read as data) and total weight against matrix path sums incl. epsilon cycles; symbols as strings, ints incl. 0, tuples, equal-hash ints, symbols whose printed forms concatenate alike (1/11, a/aa, '1'/1); gapped state names; signed weights; both construction APIs (add_* / set_*); up to 6 states and strings up to length 5; derived machines extended and then queried. Exploration.",
         "Trusted: vf.autoref (Gaussian elimination over Q / power sums).",
     ),
     "C12": (
